@@ -25,6 +25,7 @@ func ruleC01(c *Check) {
 		"supermode-charged": true, "issue-after-pause": true, "payfail-no-pause": true, "skip-with-charge": true})
 	c.pricingIdentity("C01.4")
 	c.filterTotal("C01.3")
+	c.issueLoopOverList("C01.3")
 	c.respondRules("C01")
 	c.expiredRequestRules("C01")
 	c.earnRules("C01")
@@ -33,6 +34,8 @@ func ruleC01(c *Check) {
 	c.moduleServicePath("C01.2")
 	c.expiryScanGuard("C01.6")
 	c.custodyErrorsChecked("C01.11")
+	c.startRules("C01")
+	c.keyGrammar("C01.12", map[string]bool{"0x05": true})
 	// a batch marked COMPLETED is not settled at expiry: that mark may only be written when nothing of the batch is pending
 	c.contextFieldRules("C01.6", map[string]bool{"batchstate": true, "state": true, "counts": true})
 }
@@ -187,7 +190,7 @@ func (c *Check) moduleServiceProviders(rule string, ms *Func, issue *Event) {
 	fmt.Sscanf(msParam, "P%d", &pi)
 	// the context constructor and the position of its provider-list parameter
 	var ctor *Func
-	provIdx, superIdx := -1, -1
+	provIdx, superIdx, stateIdx := -1, -1, -1
 	for f, pps := range c.persistUnits("0x08", "RequestContext") {
 		for _, pp := range pps {
 			for _, sv := range pp.Stored {
@@ -201,6 +204,9 @@ func (c *Check) moduleServiceProviders(rule string, ms *Func, issue *Event) {
 					}
 					if kv.Op == "SuperMode" && len(kv.A) == 1 && kv.A[0].Op == "" && strings.HasPrefix(kv.A[0].At, "P") {
 						fmt.Sscanf(kv.A[0].At, "P%d", &superIdx)
+					}
+					if kv.Op == "State" && len(kv.A) == 1 && kv.A[0].Op == "" && strings.HasPrefix(kv.A[0].At, "P") {
+						fmt.Sscanf(kv.A[0].At, "P%d", &stateIdx)
 					}
 				}
 			}
@@ -241,7 +247,7 @@ func (c *Check) moduleServiceProviders(rule string, ms *Func, issue *Event) {
 				"the context handed to the module-service function is created with exactly [moduleService.Provider] (the charge is computed over this list, the request is issued to that provider): "+got)
 			// the module-service function charges the filter total unconditionally, while the request builder records no
 			// fee for a super-mode context: the two agree only if every caller creates the context with SuperMode = false
-			if superIdx >= 0 {
+			if superIdx >= 0 && (c.msOnly == "" || c.msOnly == "super") {
 				okS, gotS := false, "no context is created on the path"
 				if create != nil && superIdx < len(create.CI.args) {
 					gotS = shortTerm(create.CI.args[superIdx])
@@ -249,6 +255,16 @@ func (c *Check) moduleServiceProviders(rule string, ms *Func, issue *Event) {
 				}
 				c.req(okS, rule, unitConstruct(h, "module-context-not-super"), call.Pos,
 					"the context handed to the module-service function (which charges without testing the mode) is created with SuperMode = false: "+gotS)
+			}
+			// the module-service function issues a batch without testing the state: batches are issued only to a running context
+			if stateIdx >= 0 && (c.msOnly == "" || c.msOnly == "state") {
+				okS, gotS := false, "no context is created on the path"
+				if create != nil && stateIdx < len(create.CI.args) {
+					gotS = shortTerm(create.CI.args[stateIdx])
+					okS = create.CI.args[stateIdx].IsAt("#types.RUNNING")
+				}
+				c.req(okS, rule, unitConstruct(h, "module-context-running"), call.Pos,
+					"the context handed to the module-service function (which issues a batch without testing the state) is created RUNNING: "+gotS)
 			}
 			break
 		}
@@ -258,7 +274,7 @@ func (c *Check) moduleServiceProviders(rule string, ms *Func, issue *Event) {
 
 // msReq: the module-service rules other than the mode rule are switched off when a property asks for the mode rule alone.
 func (c *Check) msReq(cond bool, rule, construct string, pos token.Pos, detail string) bool {
-	if c.msOnlySuper {
+	if c.msOnly != "" {
 		return cond
 	}
 	return c.req(cond, rule, construct, pos, detail)
@@ -266,8 +282,15 @@ func (c *Check) msReq(cond bool, rule, construct string, pos token.Pos, detail s
 
 // moduleServiceNotSuper: only the mode part of the module-service path (the known D11 findings belong to other properties).
 func (c *Check) moduleServiceNotSuper(rule string) {
-	c.msOnlySuper = true
-	defer func() { c.msOnlySuper = false }()
+	c.msOnly = "super"
+	defer func() { c.msOnly = "" }()
+	c.moduleServicePath(rule)
+}
+
+// moduleServiceRunning: only the state part (C09: batches are issued only while the context is running).
+func (c *Check) moduleServiceRunning(rule string) {
+	c.msOnly = "state"
+	defer func() { c.msOnly = "" }()
 	c.moduleServicePath(rule)
 }
 
